@@ -1427,5 +1427,8 @@ func (pool *TxPool) stats() (int, int) {
 }
 
 func (pool *TxPool) TransactionsNumber() (int, int) {
+	pool.mu.RLock()
+	defer pool.mu.RUnlock()
+
 	return pool.stats()
 }
